@@ -69,6 +69,15 @@ def cases(rng, tier):
 			yield ('c', u'', u'', u'', u'', None, rel, pairs, frag)
 			continue
 		yield ('c', scheme, user, pw, host, port, segs, pairs, frag)
+	# many segments / query pairs, long components (counts and lengths around the numbers a limit or a cache would have)
+	for cnt in (17, 33, 65, 129, 300) + ((1025,) if tier == 'thorough' else ()):
+		segs = tuple(text(rng, rng.choice((1, 2))) or u's' for _ in range(cnt))
+		pairs = tuple((u'k%d' % i, text(rng, rng.choice((0, 1, 2)))) for i in range(cnt))
+		yield ('c', u'http', u'', u'', u'example.com', None, segs, (), u'')
+		yield ('c', u'https', u'u', u'p', u'h', 8443, (u'p',), pairs, u'f')
+	for ln in (255, 256, 1024, 4096, 8192):
+		yield ('c', u'http', u'', u'', u'h', None, (text(rng, ln),), ((u'q', text(rng, ln)),), text(rng, ln))
+		yield ('c', u'http', text(rng, ln), text(rng, ln), u'h', None, (), (), u'')
 
 
 def search(rng, res):
